@@ -14,7 +14,7 @@ import (
 func init() {
 	register(&Prop{
 		ID:          "C06",
-		Decided:     "(1) operator tables: every case of expr.compareFloats/compareStrings denotes its relation under all orderings (NaN unordered); every operator the property names (+ - * /, the six comparisons with aliases, AND/OR/NOT, LIKE, IS) is accepted by the tokenizer's tables and has a case in each evaluator switch of its kind; (2) NULL discipline: in evaluateOperatorValue no arithmetic is reachable once an operand is NULL and the result is then NULL; in compareValues a NULL operand yields false for every non-IS operator before any numeric/string comparison; (3) built-in functions cannot take the caller down: every call of Function.Execute outside its own package is dominated by a successful Validate of the same function and arguments, or runs inside a frame that converts panics to errors, or is the one reviewed exception; in every Execute body a constant index args[k] is below the lower bound of len(args) implied by the constructor's minArgs (when Validate checks the count) and by dominating len(args) tests; argument-derived type assertions are comma-ok; (4) history independence, structural part: the mutated fields of the process-wide ExprBridge and FunctionRegistry are exactly the reviewed caches (a new process-wide cache fails); (5) both evaluators and the stream resolve functions only through the registry (the registry map is touched only by registry methods). Also: a process-wide cache stores the result of a fallible computation only after its error was found nil; the direct function-call path cuts an argument list only out of text that is one whole call.",
+		Decided:     "(1) operator tables: every case of expr.compareFloats/compareStrings denotes its relation under all orderings (NaN unordered); every operator the property names (+ - * /, the six comparisons with aliases, AND/OR/NOT, LIKE, IS) is accepted by the tokenizer's tables and has a case in each evaluator switch of its kind; (2) NULL discipline: in evaluateOperatorValue no arithmetic is reachable once an operand is NULL and the result is then NULL; in compareValues a NULL operand yields false for every non-IS operator before any numeric/string comparison; (3) built-in functions cannot take the caller down: every call of Function.Execute outside its own package is dominated by a successful Validate of the same function and arguments, or runs inside a frame that converts panics to errors, or is the one reviewed exception; in every Execute body a constant index args[k] is below the lower bound of len(args) implied by the constructor's minArgs (when Validate checks the count) and by dominating len(args) tests; argument-derived type assertions are comma-ok; (4) history independence, structural part: the mutated fields of the process-wide ExprBridge and FunctionRegistry are exactly the reviewed caches (a new process-wide cache fails); (5) both evaluators and the stream resolve functions only through the registry (the registry map is touched only by registry methods). Also: a process-wide cache stores the result of a fallible computation only after its error was found nil; the direct function-call path cuts an argument list only out of text that is one whole call. Also: in package functions a failing run of a program obtained from the bridge's process-wide compile cache (compiled against another row's value types) is always followed by the evaluation against the row itself (expr.Eval) before an error is returned (flow/cached-program-failure-falls-back).",
 		NotDecided:  "arithmetic, precedence, CASE branch selection, every function's documented value, agreement of the three evaluators on values, independence from the process-wide program cache (expr-lang internals), dynamic indices and slices inside Execute bodies.",
 		Assumptions: []string{"expr-lang's vm.Run converts a panic of a called function into an error (read in the module cache, vm.go: defer/recover in Run)"},
 		Run:         runC06,
@@ -212,6 +212,7 @@ func runC06(a *A) {
 	a.Rule("ownmap/shared-state", 5, func() { a.ruleSharedState() })
 	a.Rule("flow/pooled-map-cleared", 1, func() { a.rulePooledMapsModule() })
 	a.Rule("flow/cache-stores-success-only", 4, func() { a.ruleCacheStoresSuccessOnly() })
+	a.Rule("flow/cached-program-failure-falls-back", 1, func() { a.ruleCachedProgramFailureFallsBack() })
 	a.Rule("tables/null-safe-predicates", 2, func() { a.ruleNullSafePredicates() })
 	a.Rule("shape/whole-call-slice", 1, func() { a.ruleWholeCallSlice("stream") })
 	a.Rule("fnsafe/slice-bound-overflow", 1, func() { a.ruleSliceBoundOverflow("functions") })
@@ -738,6 +739,71 @@ func (a *A) ruleSliceBoundOverflow(pkgs ...string) int {
 				}
 			}
 		})
+	}
+	return n
+}
+
+// ruleCachedProgramFailureFallsBack: the bridge caches compiled programs process-wide by expression
+// text, and expr-lang specialises operators on the value types of the row the program was compiled
+// against. A cached program that fails on the current row (other types than the first row's) says
+// nothing about the row: the verdict must come from the evaluation against the row itself (expr.Eval
+// on the env path). In every function of package functions that runs a program obtained from the
+// bridge's compile-and-cache entry point, no return that hands out a non-nil error is reachable from
+// the expr.Run call without passing expr.Eval.
+func (a *A) ruleCachedProgramFailureFallsBack() int {
+	compile := a.Method("functions", "ExprBridge", "CompileExpressionWithStreamSQLFunctions")
+	isExprCall := func(in ssa.Instruction, name string) bool {
+		c, ok := in.(*ssa.Call)
+		if !ok {
+			return false
+		}
+		sc := c.Call.StaticCallee()
+		return sc != nil && sc.Pkg != nil && sc.Pkg.Pkg.Path() == "github.com/expr-lang/expr" && sc.Name() == name
+	}
+	n := 0
+	for _, fn := range a.ModFuncs {
+		if fn.Pkg != a.Pkg("functions") || fn.Blocks == nil {
+			continue
+		}
+		allInstrs(fn, func(in ssa.Instruction) {
+			if !isExprCall(in, "Run") {
+				return
+			}
+			c := in.(*ssa.Call)
+			// the program comes from the compile-and-cache entry point
+			cached := false
+			for x := range sliceThroughLocals(c.Call.Args[0], fn, 8) {
+				if cc, ok := x.(*ssa.Call); ok && cc.Call.StaticCallee() == compile {
+					cached = true
+				}
+			}
+			if !cached {
+				return
+			}
+			n++
+			bad := pathToExitAvoiding(c, func(x ssa.Instruction) bool {
+				if isExprCall(x, "Eval") {
+					return true
+				}
+				if r, ok := x.(*ssa.Return); ok && len(r.Results) > 0 {
+					last := r.Results[len(r.Results)-1]
+					if isErrorType(last.Type()) && isNilConst(last) {
+						return true // a success return
+					}
+				}
+				return false
+			}, false)
+			pos := c.Pos()
+			if bad != nil {
+				pos = bad.Pos()
+			}
+			a.Check(bad == nil, fname(fn)+"#cached-program-failure-falls-back", pos,
+				"a failing run of the cached program is followed by the evaluation against the row itself (expr.Eval) before any error is returned",
+				"an error can be returned after the cached program failed, without evaluating the expression against the row itself: the program was compiled against another row's value types (process-wide cache keyed by text), so the result of a row depends on the rows seen before it")
+		})
+	}
+	if n == 0 {
+		a.anchorFail("no expr.Run of a cached program found in package functions")
 	}
 	return n
 }
